@@ -276,7 +276,7 @@ func HarnessC11Str() {
 	}
 }
 
-var c11ArrFuncs = []string{"len", "join", "reverse", "slice1", "slice2", "append", "prepend", "contains", "shuffle", "rand", "append-twice", "slice-then-append", "join-strings"}
+var c11ArrFuncs = []string{"len", "join", "reverse", "slice1", "slice2", "append", "prepend", "contains", "shuffle", "rand", "append-twice", "slice-then-append", "join-strings", "contains-nested"}
 
 func hIntArray(name string, maxLen int) ([]int64, *object.Array) {
 	n := vChoice(name+".n", maxLen+1)
@@ -415,6 +415,37 @@ func HarnessC11Arr() {
 		vAssert(hSameInts(first, append(append([]int64{}, baseVals...), x)), "append-extends-the-array")
 		vAssert(hSameInts(second, append(append([]int64{}, baseVals...), y)), "append-extends-the-array")
 		vAssert(hSameInts(hIntsOf(r1, "append"), append(append([]int64{}, baseVals...), x)), "a-later-call-does-not-change-an-earlier-result")
+	case "contains-nested":
+		// structural equality also looks into nested arrays: an empty array is an empty array, whether it was written
+		// as a literal (no element storage) or produced by slice() (storage of length 0)
+		mk := func(storage int, vals ...int64) *object.Array {
+			var es []object.Object
+			if storage == 1 {
+				es = []object.Object{}
+			}
+			for _, v := range vals {
+				es = append(es, &object.Int{Value: v})
+			}
+			return &object.Array{Elements: es}
+		}
+		x := vInt64("x")
+		inner := vChoice("inner-length", 2)
+		var a, b *object.Array
+		if inner == 0 {
+			a, b = mk(vChoice("storage-a", 2)), mk(vChoice("storage-b", 2))
+		} else {
+			a, b = mk(0, x), mk(1, vInt64("y"))
+		}
+		res, err := hCall(T, "contains", &object.Array{Elements: []object.Object{&object.Int{Value: 1}, a}}, b)
+		vAssert(err == nil, "contains-no-error")
+		got, isBool := res.(*object.Bool)
+		vAssert(isBool, "contains-returns-a-boolean")
+		if inner == 0 {
+			vAssert(got.Value, "contains-is-structural-equality")
+		} else {
+			y := b.Elements[0].(*object.Int).Value
+			vAssert(got.Value == (x == y), "contains-is-structural-equality")
+		}
 	case "join-strings":
 		// elements that print as the empty string still take part: n elements give n-1 separators
 		m := vChoice("strs", 4)
